@@ -278,6 +278,68 @@ impl UFF {
     }
 }
 
+#[cfg(optrs_verif)]
+impl UFF {
+    /// The assigned atom types, one per atom
+    pub fn verif_atom_types(&self) -> Vec<crate::verif::AtomTypeView> {
+        self.atom_types
+            .iter()
+            .map(crate::verif::view_atom_type)
+            .collect()
+    }
+
+    /// The energy terms in the order they are summed
+    pub fn verif_terms(&self) -> Vec<crate::verif::TermDesc> {
+        self.energy_functions
+            .iter()
+            .map(|f| f.verif_describe())
+            .collect()
+    }
+
+    /// The energy terms themselves
+    pub fn verif_term_objects(&self) -> &[Box<dyn EnergyFunction>] {
+        &self.energy_functions
+    }
+
+    /// A force field without terms whose atoms carry the given rows of ATOM_TYPES, for probing
+    /// the parameter formulas on arbitrary pairs and triples of types
+    pub fn verif_from_type_indices(type_idxs: &[usize]) -> Self {
+        let mut ff = UFF::default();
+        for t in type_idxs {
+            ff.atom_types.push(ATOM_TYPES[*t].clone());
+        }
+        ff
+    }
+
+    pub fn verif_set_environment_from_neighbours(&mut self, atom: usize, molecule: &Molecule) {
+        let atoms = molecule.atoms();
+        self.atom_types[atom].set_coordination_environment(&atoms[atom]);
+    }
+
+    pub fn verif_r0(&self, i: usize, j: usize, bo: f64) -> f64 {
+        self.r0(i, j, bo)
+    }
+
+    pub fn verif_r_bo(&self, i: usize, j: usize, bo: f64) -> f64 {
+        self.r_bo(i, j, bo)
+    }
+
+    pub fn verif_r_en(&self, i: usize, j: usize) -> f64 {
+        self.r_en(i, j)
+    }
+
+    pub fn verif_k_ij(&self, i: usize, j: usize, r0: f64) -> f64 {
+        self.k_ij(i, j, r0)
+    }
+
+    /// k_ijk with the two rest lengths supplied (as the r0 cache would hold them)
+    pub fn verif_k_ijk(&mut self, i: usize, j: usize, k: usize, r0_ij: f64, r0_jk: f64) -> f64 {
+        self.r0_cache.insert(AtomPair { i, j }, r0_ij);
+        self.r0_cache.insert(AtomPair { i: j, j: k }, r0_jk);
+        self.k_ijk(i, j, k)
+    }
+}
+
 impl Forcefield for UFF {
     /// Create a new, bespoke, UFF forcefield for a molecule
     fn new(molecule: &Molecule) -> Self {
